@@ -62,8 +62,8 @@ def gen_cases(tier, rng):
         for i, c in enumerate(m.gen_cases("quick", random.Random(rng.random()))):
             if getattr(m, "C15_SKIP", None) and m.C15_SKIP(c):
                 continue
-            if "_lab" in c:          # the module already varies labels itself for this case
-                continue
+            if any(k in c and c[k] is not None and c[k] is not False for k in ("_lab", "falsy", "labels", "mixed", "lab", "label", "fam")):
+                continue             # the module already varies labels itself for this case
             pool.append(c)
             if len(pool) >= 4000:
                 break
